@@ -883,6 +883,27 @@ pub fn step(s: &State, op: Op, cfg: &JudgeCfg) -> StepResult {
         }
     }
 
+    // ---- clone_from: overwriting an arena with another makes it equal to that other (C13), free
+    // list and all (C07, C08 depend on it) — between this state and its successor, both ways
+    if cfg.target & (C13 | C07 | C08) != 0 {
+        for (from, to, dir) in [(&s.arena, &arena, "successor.clone_from(&predecessor)"), (&arena, &s.arena, "predecessor.clone_from(&successor)")] {
+            let mut x = to.clone();
+            let r = ops::guarded(|| x.clone_from(from));
+            if r.is_err() || x != *from || obs::debug_hash(&x) != obs::debug_hash(from) {
+                fails.push(mk(
+                    C13 | C07 | C08,
+                    "clone_from",
+                    false,
+                    &op,
+                    class,
+                    "clone_from-result-differs-from-source",
+                    format!("{dir}: the overwritten arena is not equal to its source: {:?} vs {:?}", x, from),
+                ));
+                break;
+            }
+        }
+    }
+
     // ---- C08 drop ledger ------------------------------------------------------------------------
     if let Some(dropped) = dropped {
         let live0 = m.live_payloads();
